@@ -9,7 +9,9 @@
 # projects the outcome (row identities, shapes) and reads TLC's expectation / verdict lines.
 # Feature records of violations use labels (valuation, hop) computed here for classification only.
 import datetime
+import glob
 import json
+import os
 import random
 
 from core import Report, Work, run_tlc, use_repo, seed, MachineryError
@@ -658,6 +660,8 @@ def run(tier):
     rng = random.Random(seed() * 7919 + 11)
     quick = tier == 'quick'
     viol = []
+    for old in glob.glob(os.path.join(rep.replay_dir, tier + '-*.json')):
+        os.unlink(old)          # replay files of an earlier run of this tier
     with Work('c11') as work:
         # (A) round trip of the parser machine, semantic laws
         r = run_tlc(work, 'MC_FilterSem.tla', 'MC_FilterSem.cfg' if quick else 'MC_FilterSem_thorough.cfg')
